@@ -76,10 +76,26 @@ def gen_constraint(rng, n, poly, eq):
     return rm.sig_leaf(rows, c, poly=poly)
 
 
+def gen_sibling(rng, leaf):
+    """a second constraint over (almost) the same monomials as `leaf`, with the positive term at the same place and other
+    coefficients: after normalisation the two constraints contain EQUAL exponential atoms"""
+    rows = [list(r) for r in leaf['alpha']]
+    c = [F(x) for x in leaf['c']]
+    c2 = [F(rng.randint(1, 6)) if x > 0 else F(-rng.randint(1, 3)) for x in c]
+    if len(rows) >= 3 and rng.random() < 0.5:
+        k = rng.choice([i for i, x in enumerate(c) if x < 0] or [0])
+        new = [frac_str(F(rng.choice([0, 2, 4]) if leaf['poly'] else rng.randint(-2, 3))) for _ in rows[k]]
+        if new not in rows:
+            rows[k] = new
+    return rm.sig_leaf([[F(x) for x in r] for r in rows], c2, poly=leaf['poly'])
+
+
 def gen_infer_case(rng):
     poly = rng.random() < 0.45
     n = rng.randint(1, 3)
     gts = [gen_constraint(rng, n, poly, False) for _ in range(rng.randint(0, 3))]
+    if gts and rng.random() < 0.4:
+        gts.insert(rng.randint(1, len(gts)), gen_sibling(rng, gts[0]))
     eqs = [gen_constraint(rng, n, poly, True) for _ in range(rng.randint(0, 2))]
     return {'poly': poly, 'n': n, 'gts': gts, 'eqs': eqs}
 
@@ -494,6 +510,33 @@ def stream_reorder(ctx, rng, N):
             if abs(got_s - want_s) > 1e-5 * max(1.0, abs(want_s)):
                 ctx.violation('suppfunc(%s) = %.9g on the box %s, closed form %.9g' % (yv.tolist(), got_s, boxes, want_s),
                               {'stream': 'reorder', 'case': case, 'y': yv.tolist()})
+                continue
+            # the documented way to change what an existing domain object represents: parse other constraints into it; the
+            # conic data and the support function must both follow (same direction asked again)
+            boxes2 = {j: (lo - rng.randint(1, 2), hi + rng.randint(1, 3)) for j, (lo, hi) in boxes.items()}
+            cons2 = []
+            for j, (lo, hi) in boxes2.items():
+                cons2 += [x[j] >= float(lo), x[j] <= float(hi)]
+            want2 = float(sum(v * (boxes2[j][1] if v > 0 else boxes2[j][0]) for j, v in enumerate(yv) if j in boxes2))
+            try:
+                X.parse_coniclifts_constraints(cons2)
+                got2 = float(X.suppfunc(yv))
+            except Exception as e:  # noqa: BLE001
+                ctx.violation('parse_coniclifts_constraints + suppfunc on an existing domain raised %s' % type(e).__name__,
+                              {'stream': 'reorder', 'case': case})
+                continue
+            ctx.count('audit:suppfunc:reparsed')
+            if abs(got2 - want2) > 1e-5 * max(1.0, abs(want2)):
+                ctx.violation('after parsing the box %s into the domain object that held %s, suppfunc(%s) = %.9g, closed form %.9g'
+                              % (boxes2, boxes, yv.tolist(), got2, want2), {'stream': 'reorder', 'case': case, 'y': yv.tolist()})
+            inside2 = [0.5 * (boxes2[j][0] + boxes2[j][1]) if j in boxes2 else 0.0 for j in range(n)]
+            edge = [boxes2[j][1] - 0.25 if j in boxes2 else 0.0 for j in range(n)]      # outside the old box, inside the new one
+            for yy in (inside2, edge):
+                m_ = conic_member(X, n, yy)
+                if m_ is False:
+                    ctx.violation('after parsing the box %s into an existing domain object, the point %s of it is rejected by the conic data'
+                                  % (boxes2, yy), {'stream': 'reorder', 'case': case, 'point': yy})
+                    break
 
 
 def stream_empty(ctx, rng, N):
